@@ -176,6 +176,34 @@ CLAIMED["C17"] = dict(cat="other", technique="enumerated obligation classes: sym
    note="Three defects repaired (F10 unchecked extraction, F11 operator+= over-read, F13 readPhaseSpace), three recorded as known findings (F12 padded position vs transform length x2, "
         "F17 Fokker-Planck table overrun for a grid that does not contain zero energy). Library internals and float-to-integer conversions are not analysed.",
    ref="DESIGN.md §3 C17")
+# sentences added to the level texts by the third round of independent changes (rules added, never loosened)
+ROUND3 = {
+ "C01": " Round 3: every member of the KickMap family that changes the displacement field rebuilds the source-map table on every path on which it changed it (a stale table moves the grid by old offsets).",
+ "C02": " Round 3: every change of the displacement field is followed by a rebuild of the stencil table (R6), so the stencil in use is the one of the current displacement.",
+ "C03": " Round 3: the per-bunch row rules of C08 are re-evaluated (every bunch is kicked and drifted), and the sinusoidal RF model linearised at the synchronous point must have the slope 2*pi/steps once constructor parameters and axis scales are replaced by what main passes (R6): this pins the position unit (natural bunch length) to the effective f_s/alpha0.",
+ "C04": " Round 3: the kick/drift matching conditions of C03 (R1, R2, R6) are re-evaluated: the limit 1 of the bunch length is stated in natural units, which the rotation must preserve.",
+ "C05": " Round 3: the Fokker-Planck moment conditions of C04 are re-evaluated (the energy distribution stays the unit Gaussian), and the table rebuild after every change of the wake offsets is decided (R5).",
+ "C06": " Round 3: every copy of a profile into the padded buffer, also one outside the bunch loop, must lie where the read-back looks for it.",
+ "C07": " Round 3: the must-rewrite rule of C18 is re-evaluated: spectrum and wake are computed from the current profile only, which the Parseval clause presupposes.",
+ "C08": " Round 3: the table rebuild after every change of the displacement field (R6).",
+ "C09": " Round 3: in main every stored population, mean and width is computed after the last refresh of the projection stored with it (R5, freshness typestate restricted to the projection->moment dependence).",
+ "C10": " Round 3: no function of HDF5File has a declared parameter name at another position in its definition (RI: arguments reach the body under the name the caller read).",
+ "C13": " Round 3: the condition under which a constant is substituted is read by meaning (any spelling of a zero test of one option value); a condition that tests something else is a violation.",
+ "C14": " Round 3: block agreement and the time expression of the final record (C10 R2/R4) are re-evaluated: the final record is stamped with the step reached.",
+ "C15": " Round 3: in every apply() main can call nothing that the class's applyTo() reads changes after the grid was moved (R5): the particles, moved right after the grid, see the displacement the charge saw.",
+ "C16": " Round 3: model functions keep no state between calls (no mutable or argument-initialised static local, no global written), unless a memo is keyed on every parameter (R6).",
+ "C17": " Round 3: (R6) members of Impedance that can change the number of samples without changing nFreqs() have no caller outside the class, so loops bounded by nFreqs() stay inside the samples.",
+ "C18": " Round 3: memset is modelled by its byte count (a clear sized in bytes instead of elements is a partial rewrite).",
+ "C19": " Round 3: the per-apply ordering rule is now a life-cycle typestate (constructor; apply; apply; ...): whenever apply() transports the grid the kick in effect was computed from the queue front, and the entry recorded is the one transported - independent of whether the kick is computed at the start of apply() or prepared at the end of the previous one.",
+ "C20": " Round 3: (R7) no getter and no first use in main pushes an option value through a value-changing conversion (floating->integral, narrower or differently signed integer, double->float in a getter).",
+}
+for _p, _t in ROUND3.items():
+    CLAIMED[_p]["text"] = CLAIMED[_p]["text"].rstrip() + _t
+CLAIMED["C19"]["technique"] = "call-argument role agreement (resolved constructors), symbolic folding of the modulation expressions, life-cycle typestate (may-dataflow over the CFGs of constructors and apply) and exactly-once counts on the CFG"
+CLAIMED["C09"]["technique"] = CLAIMED["C09"]["technique"] + "; freshness typestate on main's CFG for the projection->moment dependence"
+CLAIMED["C15"]["technique"] = CLAIMED["C15"]["technique"] + "; effect analysis of apply() after the transport against the read set of applyTo"
+CLAIMED["C20"]["technique"] = CLAIMED["C20"]["technique"] + "; conversion-kind analysis (clang cast kinds) on the path field -> getter -> first use"
+CLAIMED["C03"]["technique"] = CLAIMED["C03"]["technique"] + "; cross-procedural substitution (field <- constructor parameter <- main's argument <- main's definitions) decided by sympy normal forms"
 NOT_YET = "check not built yet in this round (static rule designed in DESIGN.md §3, not implemented)"
 NA = {}
 
